@@ -375,6 +375,13 @@ func Run(opts *Options) (int, error) {
 					} else {
 						reading = reading && evt == EvtReadNew
 					}
+					if evt == EvtReadFin && len(header) < opts.HeaderLines {
+						// The input has fewer lines than --header-lines. Clear the
+						// header lines left by the previous input.
+						headerPadded := make([]string, opts.HeaderLines)
+						copy(headerPadded, header)
+						terminal.UpdateHeader(headerPadded)
+					}
 					if useSnapshot && evt == EvtReadFin { // reload-sync
 						clearDenylist()
 						useSnapshot = false
